@@ -175,7 +175,7 @@ func compareItem(i int, it HistItem, got, want ItemResult) *Violation {
 
 func init() {
 	extraProps["C19"] = func(w *Worker, seed uint64, checks int) ([]string, string) {
-		return rapidRound(seed, 30, func(rt *rapid.T) {
+		return rapidRound(seed, 12, func(rt *rapid.T) {
 			rec := newRecorder(rt)
 			items := DrawHistory(rec)
 			o := w.Out
